@@ -67,6 +67,22 @@ fn shard(seed: u64, shard: u64, n: u64) -> Tally {
         } else {
             "qry"
         };
+        // a session token on the *other* channel is not the request's session token: the provider must be asked with
+        // the token of the carrier in use (or none)
+        if r.chance(1, 6) {
+            let other = crate::gen::gen_token(&mut r);
+            if l.carrier == Carrier::Header {
+                l.url_pairs.push((b"X-Amz-Security-Token".to_vec(), other.into_bytes()));
+            } else {
+                l.extra.push(("x-amz-security-token".to_string(), vec![other.into_bytes()]));
+                if r.coin() {
+                    l.signed.push("x-amz-security-token".to_string());
+                    l.signed.sort();
+                    l.signed.dedup();
+                }
+            }
+            t.count("token_on_the_other_channel");
+        }
         // midnight straddling: the request instant is within 15 min of 00:00 UTC and is written with an offset
         let straddle = r.chance(1, 3);
         let mut ts_text: Option<String> = None;
